@@ -530,11 +530,118 @@ def oracle_noise(r):
             "has_virtual": any(r["virtual"][: len(r["ops"])]), "prepend": bool(nz.get("prepend"))}
 
 
+# ------------------------------------------------------------------------------------------- (e) device-derived noise
+
+
+@st.composite
+def _device_noise_case(draw):
+    n = draw(st.integers(2, 3))
+    ops = []
+    for _ in range(draw(st.integers(1, 6))):
+        k = draw(st.sampled_from(["z", "phxz", "cz", "sqrt_iswap", "syc", "fsim", "wait"]))
+        i = draw(st.integers(0, n - 2))
+        if k == "z":
+            ops.append(["z", draw(st.integers(0, n - 1)), draw(G.exponents())])
+        elif k == "phxz":
+            ops.append(["phxz", draw(st.integers(0, n - 1)), draw(G.exponents()), draw(G.exponents()), draw(G.exponents())])
+        elif k == "fsim":
+            ops.append(["fsim", i, draw(G.rads()), draw(G.rads())])
+        elif k == "wait":
+            ops.append(["wait", draw(st.integers(0, n - 1)), draw(st.sampled_from([0, 25, 100, 1000]))])
+        else:
+            ops.append([k, i])
+    return {"n": n, "ops": ops, "measure": draw(st.booleans()), "layer_strategy": draw(st.sampled_from(["EARLIEST", "NEW"])),
+            "t1": draw(st.sampled_from([1e4, 1e5, 3e3])), "tphi": draw(st.sampled_from([2e5, 1e4, 5e3])),
+            "e1": draw(st.sampled_from([0.0, 0.001, 0.02])), "e2": draw(st.sampled_from([0.0, 0.01, 0.05])),
+            "ro": [draw(st.sampled_from([0.0005, 0.001, 0.03])), draw(st.sampled_from([0.002, 0.01, 0.05]))],  # strictly positive: exact zeros divide by zero in build_noise_models
+            "fsim_err": draw(st.lists(st.sampled_from([0.0, 0.01, 0.03, -0.02]), min_size=5, max_size=5)),
+            "split": draw(st.booleans()), "order": list(draw(st.permutations(list(range(n)))))}
+
+
+def oracle_device_noise(r):
+    """Device-derived noise (GoogleNoiseProperties -> NoiseModelFromGoogleNoiseProperties): simulating with the model equals
+    simulating the circuit the model produces, and the result is a valid density matrix."""
+    import cirq_google
+    from cirq.devices.noise_utils import OpIdentifier
+    from cirq_google.devices.google_noise_properties import GoogleNoiseProperties, NoiseModelFromGoogleNoiseProperties
+
+    n = r["n"]
+    qs = [cirq.GridQubit(0, i) for i in range(n)]
+    pairs = [(qs[i], qs[i + 1]) for i in range(n - 1)] + [(qs[i + 1], qs[i]) for i in range(n - 1)]
+    gate_ns = {cirq.ZPowGate: 25.0, cirq.MeasurementGate: 4000.0, cirq.ResetChannel: 250.0, cirq.PhasedXZGate: 25.0, cirq.FSimGate: 32.0,
+               cirq_google.SycamoreGate: 32.0, cirq.PhasedFSimGate: 32.0, cirq.ISwapPowGate: 32.0, cirq.CZPowGate: 32.0}
+    props = GoogleNoiseProperties(
+        gate_times_ns=gate_ns, t1_ns=dict.fromkeys(qs, r["t1"]), tphi_ns=dict.fromkeys(qs, r["tphi"]),
+        readout_errors={q: list(r["ro"]) for q in qs},
+        gate_pauli_errors={**{OpIdentifier(g, q): r["e1"] for g in GoogleNoiseProperties.single_qubit_gates() for q in qs},
+                           **{OpIdentifier(g, a, b): r["e2"] for g in GoogleNoiseProperties.symmetric_two_qubit_gates() for a, b in pairs}},
+        fsim_errors={OpIdentifier(g, a, b): cirq.PhasedFSimGate(*r["fsim_err"]) for g in GoogleNoiseProperties.symmetric_two_qubit_gates()
+                     for a, b in pairs},
+    )
+    model = NoiseModelFromGoogleNoiseProperties(props)
+    c = cirq.Circuit(cirq.Moment(cirq.PhasedXZGate(x_exponent=0.5, z_exponent=0.25 * (i + 1), axis_phase_exponent=0.1).on(q) for i, q in enumerate(qs)))
+    strat = getattr(cirq.InsertStrategy, r["layer_strategy"])
+    for o in r["ops"]:
+        k = o[0]
+        if k == "z":
+            op = cirq.ZPowGate(exponent=o[2]).on(qs[o[1]])
+        elif k == "phxz":
+            op = cirq.PhasedXZGate(x_exponent=o[2], z_exponent=o[3], axis_phase_exponent=o[4]).on(qs[o[1]])
+        elif k == "cz":
+            op = cirq.CZ(qs[o[1]], qs[o[1] + 1])
+        elif k == "sqrt_iswap":
+            op = cirq.SQRT_ISWAP(qs[o[1]], qs[o[1] + 1])
+        elif k == "syc":
+            op = cirq_google.SYC(qs[o[1]], qs[o[1] + 1])
+        elif k == "fsim":
+            op = cirq.FSimGate(theta=o[2], phi=o[3]).on(qs[o[1]], qs[o[1] + 1])
+        else:
+            op = cirq.wait(qs[o[1]], nanos=o[2])
+        c.append(op, strategy=strat)
+    if r["measure"]:
+        c.append(cirq.Moment(cirq.measure(*qs, key="m")))
+    order = [qs[i] for i in r["order"]]
+    sysq = sorted(c.all_qubits())
+    try:
+        produced = cirq.Circuit(model.noisy_moments(c, sysq))
+    except ValueError as e:
+        raise Reject(f"noise model: {str(e)[:60]}")
+    D = 2 ** n
+
+    def totals(circ, noise_arg):
+        def run(prng):
+            sim = cirq.DensityMatrixSimulator(seed=prng, dtype=np.complex128, split_untangled_states=r["split"], noise=noise_arg)
+            return sim.simulate(circ, qubit_order=order)
+
+        out = {}
+        for p, script, res, prng in enumerate_branches(run, max_branches=64):
+            _psd_valid("DensityMatrixSimulator(device noise)", res.final_density_matrix)
+            kk = ";".join(f"{k}=" + "".join(str(int(d)) for d in res.measurements[k]) for k in sorted(res.measurements))
+            out.setdefault(kk, np.zeros((D, D), dtype=complex))
+            out[kk] += p * np.asarray(res.final_density_matrix)
+        return out
+
+    try:
+        a = totals(c, model)
+        b = totals(produced, None)
+        w = totals(c.with_noise(model), None)
+    except OverflowError:
+        raise Reject("too many branches")
+    for what, x, y in (("simulating m.noisy_moments(c)", a, b), ("simulating c.with_noise(m)", a, w)):
+        for kk in set(x) | set(y):
+            d = L.max_abs_diff(x.get(kk, np.zeros((D, D))), y.get(kk, np.zeros((D, D))))
+            if d > 1e-6:
+                raise Violation(f"DensityMatrixSimulator(noise=device model).simulate(c) vs {what}: outcome [{kk}] differs by {d:.3g}")
+    n_noise = sum(1 for op in produced.all_operations() if cirq.VirtualTag() in op.tags or not cirq.has_unitary(op)) 
+    return {"nontrivial": len(r["ops"]) >= 2 and (r["e1"] > 0 or r["e2"] > 0), "measure": r["measure"], "inserted": min(n_noise // 4, 5)}
+
+
 SUBCHECKS = [
     SubCheck("dm", _dm_case(), oracle_dm, quick=3000, thorough=15000, shards_quick=6, essential={"nonunital": 0.04}),
     SubCheck("dm_qudit", _dm_case(qudits=True), oracle_dm, quick=300, thorough=4000, shards_quick=2),
     SubCheck("dephased", _dephased_case(), oracle_dephased, quick=1000, thorough=6000, shards_quick=2),
     SubCheck("trajectories", _traj_case(), oracle_traj, quick=1500, thorough=8000, shards_quick=4),
     SubCheck("representations", _reps_strategy(), oracle_reps, quick=3000, thorough=30000, shards_quick=3),
+    SubCheck("noise_device", _device_noise_case(), oracle_device_noise, quick=400, thorough=4000, shards_quick=2),
     SubCheck("noise_models", _noise_case(), oracle_noise, quick=1200, thorough=5000, shards_quick=4),
 ]
